@@ -201,6 +201,20 @@ Theorem weights_matrix_ctor_groups_by_label : forall (labels : list nat) (w : li
 Proof. exact ScanProofs.ctor_groups_by_label. Qed.
 Print Assumptions weights_matrix_ctor_groups_by_label.
 
+
+(* file semantics of Sensors::load: the weights are the last column exactly when the file has 7 numeric columns, labelled or
+   not; in an unlabelled file every integration point is its own sensor *)
+Theorem file_weights_are_the_seventh_column : forall ncol (lastcol : list R) i wi, nth_error lastcol i = Some wi ->
+  nth_error (file_weights Rops ncol lastcol) i = Some (if Nat.eqb ncol 7 then wi else 1).
+Proof. exact ScanProofs.file_weights_spec. Qed.
+Print Assumptions file_weights_are_the_seventh_column.
+
+Theorem unlabelled_file_weight_matrix_is_diagonal : forall ncol (lastcol : list R) s i wi, nth_error lastcol i = Some wi ->
+  weights_entry Rops (unlabelled_index (length lastcol)) (file_weights Rops ncol lastcol) s i =
+  if Nat.eqb i s then (if Nat.eqb ncol 7 then wi else 1) else 0.
+Proof. exact ScanProofs.unlabelled_entry. Qed.
+Print Assumptions unlabelled_file_weight_matrix_is_diagonal.
+
 (* hypotheses are satisfiable / the models compute what one expects on small instances *)
 Example head2eeg_row_example :
   head2eeg_row Qops w12_g w12_p = Some [(0%nat, 11 # 16); (1%nat, 1 # 16); (2%nat, 1 # 4)]%Q.
